@@ -426,6 +426,10 @@ def save_score_midi(
                 m_duration_beat = part.beat_map(measure.end.t) - part.beat_map(
                     measure.start.t
                 )
+                # the beat map is evaluated in floating point: a whole number
+                # of beats may come out slightly below or above it
+                if np.isclose(m_duration_beat, np.round(m_duration_beat)):
+                    m_duration_beat = np.round(m_duration_beat)
                 m_ts = part.time_signature_map(measure.start.t)
                 if m_duration_beat != m_ts[0]:
                     # add ts change
